@@ -12,8 +12,11 @@ def claimed():
     return [c['property_id'] for c in man['checks']]
 
 
+SEEDDIR = ['seeded']
+
+
 def run_seed(name, props):
-    sd = os.path.join(VERIF, 'seeded', name)
+    sd = os.path.join(VERIF, SEEDDIR[0], name)
     d = tempfile.mkdtemp(prefix='seedrun-', dir='/tmp')
     try:
         os.makedirs(os.path.join(d, 'repo'))
@@ -37,7 +40,11 @@ def run_seed(name, props):
 def main():
     args = [a for a in sys.argv[1:] if not a.startswith('--')]
     allp = '--all-props' in sys.argv
-    seeds = args or sorted(os.listdir(os.path.join(VERIF, 'seeded')))
+    benign = '--benign' in sys.argv      # behaviour-preserving refactorings under /verif/benign: every check must stay silent
+    if benign:
+        SEEDDIR[0] = 'benign'
+        allp = True
+    seeds = args or sorted(os.listdir(os.path.join(VERIF, SEEDDIR[0])))
     cl = claimed()
     jobs = []
     for s in seeds:
@@ -46,6 +53,14 @@ def main():
         jobs.append((s, props))
     with ThreadPoolExecutor(12) as ex:
         results = list(ex.map(lambda j: run_seed(*j), jobs))
+    if benign:
+        bad = 0
+        for name, out in results:
+            noisy = [p for p, (c, _) in out.items() if c != 0]
+            bad += bool(noisy)
+            print('%-8s %-9s %s' % (name, 'FALSE-ALARM' if noisy else 'silent', ' '.join('%s[%s:%s]' % (p, out[p][0], out[p][1]) for p in noisy)))
+        print('%d/%d silent' % (len(results) - bad, len(results)))
+        sys.exit(1 if bad else 0)
     caught = 0
     for name, out in results:
         own = name.split('-')[0]
